@@ -3,14 +3,14 @@ import NutilsVerif.Model.C18
 namespace NutilsVerif.C18.Gen
 open NutilsVerif.C18
 
-/-- `except` classes around `pickle.load` in Fn: EOFError, UnpicklingError, IndexError -/
-def caughtFn : List LoadErr := [.eof, .unpickling, .index]
+/-- `except` classes around `pickle.load` in Fn: Exception -/
+def caughtFn : List LoadErr := []
 /-- a catch-all (`Exception`/`BaseException`/bare except) is listed -/
-def caughtFnAll : Bool := false
+def caughtFnAll : Bool := true
 
-/-- `except` classes around `pickle.load` in Rec: UnpicklingError, IndexError, EOFError -/
-def caughtRec : List LoadErr := [.unpickling, .index, .eof]
+/-- `except` classes around `pickle.load` in Rec: EOFError, Exception -/
+def caughtRec : List LoadErr := [.eof]
 /-- a catch-all (`Exception`/`BaseException`/bare except) is listed -/
-def caughtRecAll : Bool := false
+def caughtRecAll : Bool := true
 
 end NutilsVerif.C18.Gen
